@@ -331,6 +331,35 @@ theorem engUnary_safe_iter_coordinatewise (st : St) (g : UnF) (tc kt : List Stri
   intro co hco
   exact hv (dot co a.ap.strides) (by rw [eoa]; exact List.mem_map.mpr ⟨co, hco, rfl⟩)
 
+/-- **In place through a view, by coordinate, end to end** (unary operations, `Clamp`): for a well-formed operand that needs
+    an iterator, `UseUnsafe()` replaces, for every coordinate `c`, the element at `c` by `g` of itself, and no cell that
+    is not addressed by a coordinate of the operand changes (gaps of the view, the rest of its parent, other buffers). -/
+theorem engUnary_unsafe_iter_coordinatewise (st : St) (g : UnF) (tc kt : List String) (strict : Bool) (a : Dense)
+    (htc : a.dt ∈ tc) (hk : a.dt ∈ kt) (hia : a.requiresIterator = true) (hm : a.mask = none)
+    (hca : C13.Covers a.ap (a.win.len : Int)) (hinj : InjectivePat a.ap.shape a.ap.strides)
+    (hA : InBuf st a.win.buf a.win.off a.win.len) :
+    ∃ out, engUnary st g tc kt strict a { unsafe_ := true } = .ok out ∧ out.ret = .a ∧
+      (∀ co ∈ allCoords a.ap.shape, ∃ x, cell st a.win.buf (a.win.off + (dot co a.ap.strides).toNat) = some x ∧
+        cell out.st a.win.buf (a.win.off + (dot co a.ap.strides).toNat) = some (g x)) ∧
+      (∀ b' k', (b' ≠ a.win.buf ∨ ∀ co ∈ allCoords a.ap.shape, k' ≠ a.win.off + (dot co a.ap.strides).toNat) →
+        cell out.st b' k' = cell st b' k') := by
+  obtain ⟨hoa, hnd⟩ := C13.wf_offsets a a.win.len hca hinj
+  obtain ⟨out, h, hret, _, hv, hfr⟩ := engUnary_unsafe_iter st g tc kt strict a htc hk hia hm hoa hnd hA
+  have eoa : a.offsets = (allCoords a.ap.shape).map (fun c => dot c a.ap.strides) := by
+    unfold Dense.offsets; exact offsets_rowmajor a.ap hca.1 hca.2.2.1
+  refine ⟨out, h, hret, ?_, ?_⟩
+  · intro co hco
+    exact hv (dot co a.ap.strides) (by rw [eoa]; exact List.mem_map.mpr ⟨co, hco, rfl⟩)
+  · intro b' k' hbk
+    apply hfr
+    rcases hbk with hb | hk'
+    · exact Or.inl hb
+    · refine Or.inr ?_
+      intro i hi
+      rw [eoa] at hi
+      obtain ⟨co, hco, rfl⟩ := List.mem_map.mp hi
+      exact hk' co hco
+
 /-! ## non-vacuity -/
 namespace Ex
 def st : St := { heap := #[#[.src 0 0, .src 0 1, .src 0 2, .src 0 3], #[.src 1 0, .src 1 1, .src 1 2, .src 1 3]] }
@@ -357,6 +386,10 @@ example := engMap_incr st g ["f64"] ta tr (by decide) (by decide) (by decide) (b
 def taT : Dense := { ap := { shape := [2, 2], strides := [1, 2] }, old := some { shape := [2, 2], strides := [2, 1] }, tw := some [1, 0],
                      win := ⟨0, 0, 4, 4⟩, dt := "f64" }
 example := engUnary_safe_iter_coordinatewise st g floatTypes floatTypes true taT (by decide) (by decide) (by decide) rfl
+  ⟨rfl, by decide, by decide, by decide⟩ (by
+    have h := C13.T_distinct [1, 0] [2, 2] [2, 1] (by decide) rfl (C13.default_distinct [2, 2])
+    simpa [gatherI, taT] using h) inA
+example := engUnary_unsafe_iter_coordinatewise st g floatTypes floatTypes true taT (by decide) (by decide) (by decide) rfl
   ⟨rfl, by decide, by decide, by decide⟩ (by
     have h := C13.T_distinct [1, 0] [2, 2] [2, 1] (by decide) rfl (C13.default_distinct [2, 2])
     simpa [gatherI, taT] using h) inA
